@@ -16,6 +16,7 @@ THEOREMS = [
     "MC.forces_stale_when_aliased",
     "MC.energy_history",
     "MC.energy_history_grand",
+    "MC.einv_trial_composite_exchange",
     "MC.evals_trial_of",
     "MC.evals_history",
     "MC.getEnergy_spec",
